@@ -277,33 +277,6 @@ theorem later_call_keeps_attributes (arch : Arch) (sg : Sg) (s q f : MemTensor) 
     subst h
     exact ⟨s, q, rfl, rfl, rfl, rfl, rfl, rfl⟩
 
-theorem perType_ge_call (calls : List AllocCall) (b0 : Books) (c : AllocCall) (hc : c ∈ calls) (hrec : c.recorded = true)
-    (mt : MemType) (hmt : mt ∈ c.types) :
-    c.total ≤ lookup (calls.foldl recordCall b0).perType mt := by
-  have mono : ∀ (cs : List AllocCall) (b : Books), lookup b.perType mt ≤ lookup (cs.foldl recordCall b).perType mt := by
-    intro cs
-    induction cs with
-    | nil => intro b; exact Nat.le_refl _
-    | cons d rest ih =>
-      intro b
-      refine Nat.le_trans ?_ (ih (recordCall b d))
-      unfold recordCall
-      split
-      · simp only [lookup_types]; omega
-      · exact Nat.le_refl _
-  induction calls generalizing b0 with
-  | nil => simp at hc
-  | cons d rest ih =>
-    rcases List.mem_cons.1 hc with rfl | hc
-    · refine Nat.le_trans ?_ (mono rest (recordCall b0 c))
-      unfold recordCall
-      simp only [hrec, if_true, lookup_types]
-      have : 1 ≤ c.types.count mt := List.count_pos_iff.2 hmt
-      calc c.total = 1 * c.total := by omega
-        _ ≤ c.types.count mt * c.total := Nat.mul_le_mul_right _ this
-        _ ≤ _ := by omega
-    · exact ih (recordCall b0 d) hc
-
 /-- **scratch_spans_arena**.  `calls` = the `allocate_tensors` calls on the root subgraph, `s`, `q` = the scratch and fast-scratch
     tensors after serialisation.  After "Set Scratch and Fast_scratch Tensor size" the scratch tensor is entered in the plan at
     offset 0 and its size is at least `address + storage_size()` of EVERY tensor `(addr, size)` placed by a recorded allocation
@@ -359,55 +332,6 @@ theorem custom_op_inputs_order_witness :
     ([TRef.fast, .flash, .scratch, .cmd 0].foldl (fun acc t => t :: acc) [])[0 + 1]? ≠ some TRef.flash := by decide
 
 /-! ## (d) reported figures -/
-
-theorem used_ge_call (calls : List AllocCall) (b0 : Books) (c : AllocCall) (hc : c ∈ calls) (hrec : c.recorded = true) :
-    c.total ≤ lookup (calls.foldl recordCall b0).used c.area := by
-  have mono : ∀ (cs : List AllocCall) (b : Books) (A : MemArea), lookup b.used A ≤ lookup (cs.foldl recordCall b).used A := by
-    intro cs
-    induction cs with
-    | nil => intro b A; exact Nat.le_refl _
-    | cons d rest ih =>
-      intro b A
-      refine Nat.le_trans ?_ (ih (recordCall b d) A)
-      unfold recordCall
-      split
-      · simp only [lookup_bump]; omega
-      · exact Nat.le_refl _
-  induction calls generalizing b0 with
-  | nil => simp at hc
-  | cons d rest ih =>
-    rcases List.mem_cons.1 hc with rfl | hc
-    · refine Nat.le_trans ?_ (mono rest (recordCall b0 c) c.area)
-      unfold recordCall
-      simp only [hrec, if_true, lookup_bump, beq_self_eq_true]
-      omega
-    · exact ih (recordCall b0 d) hc
-
-theorem perType_le_used (calls : List AllocCall) (mt : MemType) (A : MemArea)
-    (hnodup : ∀ c ∈ calls, c.types.Nodup)
-    (harea : ∀ c ∈ calls, c.recorded = true → mt ∈ c.types → c.area = A) (b0 : Books)
-    (h0 : lookup b0.perType mt ≤ lookup b0.used A) :
-    lookup (calls.foldl recordCall b0).perType mt ≤ lookup (calls.foldl recordCall b0).used A := by
-  induction calls generalizing b0 with
-  | nil => exact h0
-  | cons d rest ih =>
-    apply ih (fun c hc => hnodup c (by simp [hc])) (fun c hc => harea c (by simp [hc]))
-    unfold recordCall
-    by_cases hrec : d.recorded = true
-    · simp only [hrec, if_true, lookup_types, lookup_bump]
-      by_cases hmt : mt ∈ d.types
-      · have ha := harea d (by simp) hrec hmt
-        have hc1 : d.types.count mt = 1 := by
-          have h1 := (List.nodup_iff_count.1 (hnodup d (by simp))) mt
-          have h2 : 0 < d.types.count mt := List.count_pos_iff.2 hmt
-          omega
-        simp only [hc1, ha, beq_self_eq_true, if_true]
-        omega
-      · have hc0 : d.types.count mt = 0 := List.count_eq_zero_of_not_mem hmt
-        simp only [hc0]
-        omega
-    · simp only [hrec, Bool.false_eq_true, if_false]
-      exact h0
 
 /-- **reported_ge_extent** (a first compilation).  `calls` = the recorded `allocate_tensors` calls on the root subgraph, whose
     books are `nng.memory_used`.  Per figure, in bytes (the CSV prints them divided by 1024.0):
@@ -568,27 +492,6 @@ theorem flashOk_sound_pairs (flash : List Nat) (ps : List Placed) (h : flashOk f
       have hs' : (ps[i].addr == ps[j].addr && ps[i].src.bytes == ps[j].src.bytes) = false := by simpa using hs
       have := hc ⟨⟨⟨⟨hij, hne.1⟩, hne.2⟩, hov.1⟩, hov.2⟩
       simp [hs'] at this
-
-theorem leNat_get (n u k : Nat) (hk : k < n) : (leNat n u)[k]? = some (u / 256 ^ k % 256) := by
-  induction n generalizing u k with
-  | zero => omega
-  | succ n ih =>
-    cases k with
-    | zero => simp [leNat]
-    | succ k =>
-      simp only [leNat, List.getElem?_cons_succ]
-      rw [ih (u / 256) k (by omega), Nat.div_div_eq_div_mul, Nat.pow_succ, Nat.mul_comm]
-
-theorem elemByte_eq (sz : Nat) (v : Int) (k : Nat) :
-    elemByte sz v k = (v % (256 : Int) ^ sz).toNat / 256 ^ k % 256 := by
-  unfold elemByte
-  have hnn : 0 ≤ v % (256 : Int) ^ sz := Int.emod_nonneg _ (Int.ne_of_gt (Int.pow_pos (by decide)))
-  obtain ⟨u, hu⟩ := Int.eq_ofNat_of_zero_le hnn
-  rw [hu]
-  simp only [Int.toNat_natCast]
-  have : ((u : Int) / (256 : Int) ^ k % 256) = ((u / 256 ^ k % 256 : Nat) : Int) := by
-    simp [Int.natCast_ediv, Int.natCast_emod, Int.natCast_pow]
-  rw [this, Int.toNat_natCast]
 
 /-- the Spec's element encoding (written from the definition of two's complement little endian) is the model's -/
 theorem spec_ints_bytes (sz : Nat) (vals : List Int) : (Src.ints sz vals).bytes = vals.flatMap (leBytes sz) := by
